@@ -67,7 +67,8 @@ class Runner(object):
         self.cfg = cfg
         self.drv = drv
         self.diff = diff and drv is not None     # diff=False: monitors only (search / witnesses)
-        self.sim = tf.Sim(repo, cfg["n"], readonly=cfg.get("readonly", ()), retry=cfg["retry"], timeout=cfg["timeout"])
+        self.sim = tf.Sim(repo, cfg["n"], readonly=cfg.get("readonly", ()), retry=cfg["retry"], timeout=cfg["timeout"],
+                          fds=cfg.get("fds", "lowest"))
         self.trace = []
         self.violations = []
         self.guards = self.sim.cov
@@ -207,12 +208,12 @@ class Runner(object):
                 self.apply(["tick", i, []])
             for _ in range(2):
                 for s in list(sim.connecting_socks()):
-                    self.apply(["syn_ok", s.fd])
+                    self.apply(["syn_ok", s.sid])
                 for j in range(sim.n):
                     while self.apply(["accept", j]):
                         pass
                 for s in list(sim.pending_connected()):
-                    self.apply(["cev", s.fd, False, False])
+                    self.apply(["cev", s.sid, False, False])
                 for w in range(len(sim.wires)):
                     for side in (0, 1):
                         while self.apply(["dlv", w, side, 99, False, False]):
@@ -285,11 +286,11 @@ def run_actions(runner, actions):
                 continue
             s = cands[-1]
             if k == "syn_ok*":
-                runner.apply(["syn_ok", s.fd])
+                runner.apply(["syn_ok", s.sid])
             elif k == "cev*":
-                runner.apply(["cev", s.fd, act[3], act[4]])
+                runner.apply(["cev", s.sid, act[3], act[4]])
             elif k == "err*":
-                runner.apply(["err", s.fd, act[3], act[4]])
+                runner.apply(["err", s.sid, act[3], act[4]])
         elif k == "heal":
             runner.heal()
         else:
@@ -405,6 +406,14 @@ def directed():
     S.append(("blackhole-one-way-silence", base, up + [x for r in range(20) for x in
                                                       (["adv", 256], ["send", 1, ["tcp", 0], 300 + r, False, False],
                                                        ["dlv*", 1, 0, 0, 99])] + [["heal"]]))
+    # the accepted socket of a redial gets the descriptor number of the closed, still registered object (lowest free
+    # number): the D52 path calls disconnect() on that old object, which must not touch the new subscription
+    for fds in ("lowest", "monotone"):
+        S.append(("descriptor-reused-by-new-incoming-" + fds, dict(base, fds=fds),
+                  up + [["err", 103, "eof", False], ["err*", 1, 0, "eof", False], ["adv", 2048], ["tick", 1, []],
+                        ["syn_ok*", 1, 0], ["accept", 0], ["cev*", 1, 0, False, False], ["dlv*", 1, 0, 0, 99],
+                        ["send", 1, ["tcp", 0], 11, False, False], ["dlv*", 1, 0, 0, 99],
+                        ["send", 0, ["tcp", 1], 12, False, False], ["dlv*", 1, 0, 1, 99], ["heal"]]))
     # two observers join, one leaves, a third joins: ids of connected read-only nodes are never handed out again (C18)
     ro2 = {"n": 3, "retry": 512, "timeout": 4096, "readonly": [1, 2]}
 
@@ -446,17 +455,17 @@ def random_schedule(rng, runner, length):
         elif k == "syn_ok":
             c = sim.connecting_socks()
             if c:
-                act = ["syn_ok", rng.choice(c).fd]
+                act = ["syn_ok", rng.choice(c).sid]
         elif k == "syn_err":
             c = sim.connecting_socks()
             if c:
-                act = ["err", rng.choice(c).fd, rng.choice(["soerr", "mask"]), rng.random() < 0.15]
+                act = ["err", rng.choice(c).sid, rng.choice(["soerr", "mask"]), rng.random() < 0.15]
         elif k == "accept":
             act = ["accept", rng.randrange(n)]
         elif k == "cev":
             c = sim.pending_connected()
             if c:
-                act = ["cev", rng.choice(c).fd, rng.random() < 0.08, rng.random() < 0.1]
+                act = ["cev", rng.choice(c).sid, rng.random() < 0.08, rng.random() < 0.1]
         elif k == "dlv":
             c = [(wi, side) for wi, w in enumerate(sim.wires) for side in (0, 1) if w.inflight[side]]
             if c:
@@ -470,9 +479,9 @@ def random_schedule(rng, runner, length):
             act = ["send", i, key, rng.randrange(1000), rng.random() < 0.05, rng.random() < 0.1]
         elif k == "err":
             c = [s for s in sim.fabric.socks.values() if s.kind == "established" and sim.owner_live(s) and not s.closed
-                 and s not in sim.strangers and sim.cid_of_fd(s.owner, s.fd) is not None]
+                 and s not in sim.strangers and sim.cid_of_sock(s.owner, s) is not None]
             if c:
-                act = ["err", rng.choice(c).fd, rng.choice(["mask", "soerr", "rst", "eof"]), rng.random() < 0.15]
+                act = ["err", rng.choice(c).sid, rng.choice(["mask", "soerr", "rst", "eof"]), rng.random() < 0.15]
         elif k == "idle":
             i = rng.randrange(n)
             if sim.conn_objs[i]:
@@ -503,7 +512,8 @@ def random_schedule(rng, runner, length):
 
 def random_cfg(rng):
     n = rng.choice([2, 2, 3, 3, 4])
-    cfg = {"n": n, "retry": rng.choice([0, 512, 2048]), "timeout": rng.choice([1024, 4096])}
+    cfg = {"n": n, "retry": rng.choice([0, 512, 2048]), "timeout": rng.choice([1024, 4096]),
+           "fds": rng.choice(["lowest", "lowest", "monotone"])}
     if n >= 3 and rng.random() < 0.3:
         cfg["readonly"] = [n - 1]
     elif n >= 4 and rng.random() < 0.5:
@@ -515,6 +525,7 @@ def readonly_cfg(rng):
     """Configurations for the C18 run: one voter pair or a single voter plus one or two read-only transports."""
     n = rng.choice([3, 3, 4])
     return {"n": n, "retry": rng.choice([0, 512]), "timeout": rng.choice([1024, 4096]),
+            "fds": rng.choice(["lowest", "monotone"]),
             "readonly": [n - 1] if rng.random() < 0.4 else [n - 2, n - 1]}
 
 
@@ -570,7 +581,7 @@ FLOORS = ["tick", "accept", "connected", "connected.sendfail", "deliver.data", "
           "guard.stale-replaced", "guard.unhashable-raise", "guard.utility", "guard.readonly-handshake",
           "guard.deliver", "guard.send.disconnects", "guard.outgoing-connected", "guard.drop.reports-disconnect",
           "guard.connerr.after-disconnect-state=0", "guard.connerr.after-disconnect-state=1",
-          "guard.recv.after-disconnect-state=1", "heal"]
+          "guard.recv.after-disconnect-state=1", "guard.fd-reuse.stale-disconnect", "heal"]
 
 
 def run(ctx):
